@@ -173,6 +173,12 @@ func (h Handler) ServeHTTP(w http.ResponseWriter, r *http.Request) (int, error) 
 				}
 			}
 
+			// A status code outside 100..999 (e.g. "Status: 99" or "Status: 0")
+			// would make WriteHeader panic; the upstream's answer is unusable.
+			if resp.StatusCode < 100 || resp.StatusCode > 999 {
+				return http.StatusBadGateway, fmt.Errorf("fastcgi: upstream sent invalid status code %d", resp.StatusCode)
+			}
+
 			// Write response header
 			writeHeader(w, resp)
 
